@@ -341,44 +341,74 @@ Qed.
 
 (* ---------- one step of the line loop per line shape ---------- *)
 Definition nv2 (p : pkg) : bytes * bytes := (p_name p, p_version p).
-Lemma go_loop_cons all line rest num in_block :
-  go_loop all (line :: rest) num in_block =
+Lemma go_loop_cons piece rest num off in_block :
+  go_loop (piece :: rest) num off in_block =
+  let line := chomp piece in
+  let next := off + blen piece in
   let trimmed := trim line in
-  if beq trimmed [] || starts_with [47; 47] trimmed then go_loop all rest (S num) in_block
-  else if in_block && block_close trimmed then go_loop all rest (S num) false
-  else if match_block_start trimmed then go_loop all rest (S num) true
+  if beq trimmed [] || starts_with [47; 47] trimmed then go_loop rest (S num) next in_block
+  else if in_block && block_close trimmed then go_loop rest (S num) next false
+  else if match_block_start trimmed then go_loop rest (S num) next true
   else
-    let line_start := sum_line_starts (firstn num all) in
     if in_block then
       match match_require_spec (trim_end line) with
-      | Some (m, v, off) =>
-          mkPkg m v None (line_start + off) (line_start + off + blen v) (N.of_nat num) off None :: go_loop all rest (S num) in_block
-      | None => go_loop all rest (S num) in_block
+      | Some (m, v, o) =>
+          mkPkg m v None (off + o) (off + o + blen v) (N.of_nat num) o None :: go_loop rest (S num) next in_block
+      | None => go_loop rest (S num) next in_block
       end
     else
       match match_single_require trimmed with
-      | Some (m, v, _) =>
-          let require_pos := match find_str kw_require line with Some p => p | None => 0 end in
-          let vpos := match find_str v (skipn_N require_pos line) with Some p => require_pos + p | None => 0 end in
-          mkPkg m v None (line_start + vpos) (line_start + vpos + blen v) (N.of_nat num) vpos None :: go_loop all rest (S num) in_block
-      | None => go_loop all rest (S num) in_block
+      | Some (m, v, o) =>
+          let vpos := blen line - blen (trim_start line) + o in
+          mkPkg m v None (off + vpos) (off + vpos + blen v) (N.of_nat num) vpos None :: go_loop rest (S num) next in_block
+      | None => go_loop rest (S num) next in_block
       end.
 Proof. reflexivity. Qed.
 
 Lemma in_v_app A v B : version_ok v = true -> In 118 (A ++ v ++ B).
 Proof. intros H. destruct (version_inv v H) as [v' [-> _]]. apply in_or_app. right. now left. Qed.
-
-Lemma step_require all rest num ind sep1 m sep2 v t :
-  line_ok false (LRequire ind sep1 m sep2 v t) = true ->
-  map nv2 (go_loop all (render_line (LRequire ind sep1 m sep2 v t) :: rest) num false) = (m, v) :: map nv2 (go_loop all rest (S num) false).
+Lemma line_text in_block l : line_ok in_block l = true -> text_ok (render_line l) = true.
 Proof.
-  intros Hok. destruct (trim_require ind sep1 m sep2 v t Hok) as [r [Htrim [Hshape Htext]]].
+  destruct l as [ind sep1 m sep2 v t|ind sep tsp|ind m sep v t|ind t|text]; cbn [line_ok render_line]; intros H;
+    repeat (apply andb_true_iff in H as [H ?]);
+    repeat match goal with
+           | Hx : nonempty_sp ?s = true |- _ => let Hy := fresh in destruct (nonempty_sp_inv s Hx) as [_ [_ [_ [_ Hy]]]]; clear Hx
+           | Hx : is_tok ?s = true |- _ => let Hy := fresh in destruct (tok_inv s Hx) as [_ [_ [_ [_ Hy]]]]; clear Hx
+           | Hx : version_ok ?s = true |- _ => let Hy := fresh in destruct (version_inv s Hx) as [_ [_ [_ Hy]]]; clear Hx
+           end;
+    rewrite ?text_ok_app;
+    repeat match goal with
+           | Hx : sp_run ?s = true |- _ => rewrite (sp_text s Hx); clear Hx
+           | Hx : vis_run ?s = true |- _ => rewrite (vis_text s Hx); clear Hx
+           | Hx : tail_ok ?t = true |- _ => rewrite (tail_text t (or_introl Hx)); clear Hx
+           | Hx : close_tail_ok ?t = true |- _ => rewrite (tail_text t (or_intror Hx)); clear Hx
+           end; try reflexivity; try assumption.
+Qed.
+Lemma piece_line in_block l : line_ok in_block l = true ->
+  chomp (render_line l ++ [10]) = render_line l /\ blen (render_line l ++ [10]) = line_len l.
+Proof.
+  intros H. split.
+  - apply chomp_line. intros c Hc. exact (text_ok_no_nl _ (line_text in_block l H) c Hc).
+  - unfold line_len, blen. rewrite app_length. cbn [length]. lia.
+Qed.
+Lemma blen_app (a b' : bytes) : blen (a ++ b') = blen a + blen b'.
+Proof. unfold blen. rewrite app_length. lia. Qed.
+
+Lemma step_require rest num off ind sep1 m sep2 v t :
+  line_ok false (LRequire ind sep1 m sep2 v t) = true ->
+  go_loop ((render_line (LRequire ind sep1 m sep2 v t) ++ [10]) :: rest) num off false
+  = located_line (LRequire ind sep1 m sep2 v t) num off ++ go_loop rest (S num) (off + line_len (LRequire ind sep1 m sep2 v t)) false.
+Proof.
+  intros Hok. destruct (piece_line false _ Hok) as [Hch Hlen].
+  destruct (trim_require ind sep1 m sep2 v t Hok) as [r [Htrim [Hshape Htext]]].
+  pose proof (line_text false _ Hok) as Hlt.
   cbn [line_ok negb andb] in Hok. repeat (apply andb_true_iff in Hok as [Hok ?]).
   match goal with Hx : version_ok v = true |- _ => rename Hx into Hv end.
   match goal with Hx : nonempty_sp sep2 = true |- _ => rename Hx into Hs2 end.
   match goal with Hx : is_tok m = true |- _ => rename Hx into Hm end.
   match goal with Hx : nonempty_sp sep1 = true |- _ => rename Hx into Hs1 end.
-  rewrite go_loop_cons. cbv zeta. rewrite Htrim.
+  rename Hok into Hind.
+  rewrite go_loop_cons. cbv zeta. rewrite Hch, Hlen, Htrim.
   assert (beq (kw ++ sep1 ++ m ++ sep2 ++ v ++ r) [] = false) as -> by reflexivity.
   assert (starts_with [47; 47] (kw ++ sep1 ++ m ++ sep2 ++ v ++ r) = false) as -> by reflexivity.
   cbn [orb andb].
@@ -388,13 +418,20 @@ Proof.
   assert (span_ws (sep1 ++ m ++ sep2 ++ v ++ r) = (sep1, m ++ sep2 ++ v ++ r)) as ->.
   { apply span_ws_run; [exact Hr1|]. right. rewrite Hmt. cbn [app]. eauto. }
   assert (beq sep1 [] = false) as -> by (rewrite Hs1t; reflexivity).
-  rewrite (spec_tail_ok m sep2 v r _ Hm Hs2 Hv Hshape). cbn [map nv2 p_name p_version]. reflexivity.
+  rewrite (spec_tail_ok m sep2 v r _ Hm Hs2 Hv Hshape).
+  (* the leading blanks the regex did not see *)
+  rewrite (trim_start_ascii _ Hlt). cbn [render_line]. rewrite (lstrip_sp_app ind _ Hind).
+  assert (lstrip (kw ++ sep1 ++ m ++ sep2 ++ v ++ render_tail t) = kw ++ sep1 ++ m ++ sep2 ++ v ++ render_tail t) as -> by (apply lstrip_vis; reflexivity).
+  assert (blen (ind ++ kw ++ sep1 ++ m ++ sep2 ++ v ++ render_tail t) - blen (kw ++ sep1 ++ m ++ sep2 ++ v ++ render_tail t) = blen ind) as -> by (rewrite blen_app; lia).
+  cbn [located_line app]. f_equal. change (blen kw) with 7.
+  f_equal; lia.
 Qed.
 
-Lemma step_open all rest num ind sep tsp :
+Lemma step_open rest num off ind sep tsp :
   line_ok false (LOpen ind sep tsp) = true ->
-  go_loop all (render_line (LOpen ind sep tsp) :: rest) num false = go_loop all rest (S num) true.
+  go_loop ((render_line (LOpen ind sep tsp) ++ [10]) :: rest) num off false = go_loop rest (S num) (off + line_len (LOpen ind sep tsp)) true.
 Proof.
+  intros Hl. destruct (piece_line false _ Hl) as [Hch Hlen]. revert Hl.
   cbn [line_ok negb andb]. intros H. apply andb_true_iff in H as [H Ht]. apply andb_true_iff in H as [Hi Hs].
   assert (text_ok (render_line (LOpen ind sep tsp)) = true) as Hok.
   { cbn [render_line]. rewrite !text_ok_app, (sp_text _ Hi), (vis_text _ kw_vis), (sp_text _ Hs), (sp_text _ Ht). reflexivity. }
@@ -403,7 +440,7 @@ Proof.
     assert (lstrip (kw ++ sep ++ [40] ++ tsp) = kw ++ sep ++ [40] ++ tsp) as -> by (apply lstrip_vis; reflexivity).
     replace (kw ++ sep ++ [40] ++ tsp) with (((kw ++ sep) ++ [40]) ++ tsp) by (rewrite <- !app_assoc; reflexivity).
     rewrite (rstrip_app_sp _ _ Ht), (rstrip_snoc_vis _ 40 eq_refl). now rewrite <- !app_assoc. }
-  rewrite go_loop_cons. cbv zeta. rewrite Htrim.
+  rewrite go_loop_cons. cbv zeta. rewrite Hch, Hlen, Htrim.
   assert (beq (kw ++ sep ++ [40]) [] = false) as -> by reflexivity.
   assert (starts_with [47; 47] (kw ++ sep ++ [40]) = false) as -> by reflexivity.
   cbn [orb andb].
@@ -428,10 +465,12 @@ Proof.
   repeat (destruct p as [p|p|]; try reflexivity). congruence.
 Qed.
 
-Lemma step_spec all rest num ind m sep v t :
+Lemma step_spec rest num off ind m sep v t :
   line_ok true (LSpec ind m sep v t) = true ->
-  map nv2 (go_loop all (render_line (LSpec ind m sep v t) :: rest) num true) = (m, v) :: map nv2 (go_loop all rest (S num) true).
+  go_loop ((render_line (LSpec ind m sep v t) ++ [10]) :: rest) num off true
+  = located_line (LSpec ind m sep v t) num off ++ go_loop rest (S num) (off + line_len (LSpec ind m sep v t)) true.
 Proof.
+  intros Hl. destruct (piece_line true _ Hl) as [Hch Hlen]. revert Hl.
   cbn [line_ok andb]. intros H. repeat (apply andb_true_iff in H as [H ?]).
   match goal with Hx : negb (starts_with [41] m) = true |- _ => rename Hx into Hnc end.
   match goal with Hx : negb (starts_with [47; 47] m) = true |- _ => rename Hx into Hnss end.
@@ -445,14 +484,12 @@ Proof.
   assert (text_ok (render_line (LSpec ind m sep v t)) = true) as Hok.
   { cbn [render_line]. rewrite !text_ok_app, (sp_text _ Hind), (vis_text _ Hmr), (sp_text _ Hsr), (vis_text _ Hvr), (tail_text t (or_introl Ht)). reflexivity. }
   assert (v <> []) as Hvn by (subst v; discriminate).
-  (* trim *)
   destruct (rstrip_with_tail (m ++ sep) v t Hvr Hvn Ht) as [r [Hr Hshape]].
   assert (trim (render_line (LSpec ind m sep v t)) = m ++ sep ++ v ++ r) as Htrim.
   { rewrite (trim_ascii _ Hok). cbn [render_line]. rewrite (lstrip_sp_app ind _ Hind).
     assert (lstrip (m ++ sep ++ v ++ render_tail t) = m ++ sep ++ v ++ render_tail t) as -> by (rewrite Hmt; apply lstrip_vis; exact Hmc).
     replace (m ++ sep ++ v ++ render_tail t) with ((m ++ sep) ++ v ++ render_tail t) by (rewrite <- !app_assoc; reflexivity).
     rewrite Hr. now rewrite <- !app_assoc. }
-  (* trim_end *)
   destruct (rstrip_with_tail (ind ++ m ++ sep) v t Hvr Hvn Ht) as [r2 [Hr2 Hshape2]].
   assert (trim_end (render_line (LSpec ind m sep v t)) = ind ++ m ++ sep ++ v ++ r2) as Htrim_end.
   { rewrite (trim_end_ascii _ Hok). cbn [render_line].
@@ -460,7 +497,7 @@ Proof.
     rewrite Hr2. now rewrite <- !app_assoc. }
   assert (text_ok (m ++ sep ++ v ++ r) = true) as Htext.
   { rewrite <- Htrim, (trim_ascii _ Hok). unfold rstrip. rewrite text_ok_rev. apply lstrip_text_ok. rewrite text_ok_rev. now apply lstrip_text_ok. }
-  rewrite go_loop_cons. cbv zeta. rewrite Htrim, Htrim_end.
+  rewrite go_loop_cons. cbv zeta. rewrite Hch, Hlen, Htrim, Htrim_end.
   assert (beq (m ++ sep ++ v ++ r) [] = false) as -> by (rewrite Hmt; reflexivity).
   assert (starts_with [47; 47] (m ++ sep ++ v ++ r) = false) as ->.
   { apply (not_ss m (sep ++ v ++ r) Hm); [now apply negb_true_iff|]. right. rewrite Hst. cbn [app]. eauto. }
@@ -471,13 +508,14 @@ Proof.
   unfold match_require_spec.
   assert (span_ws (ind ++ m ++ sep ++ v ++ r2) = (ind, m ++ sep ++ v ++ r2)) as ->.
   { apply span_ws_run; [exact Hind|]. right. rewrite Hmt. cbn [app]. eauto. }
-  rewrite (spec_tail_ok m sep v r2 _ Hm Hs Hv Hshape2). cbn [map nv2 p_name p_version]. reflexivity.
+  rewrite (spec_tail_ok m sep v r2 _ Hm Hs Hv Hshape2). cbn [located_line app]. reflexivity.
 Qed.
 
-Lemma step_close all rest num ind t :
+Lemma step_close rest num off ind t :
   line_ok true (LClose ind t) = true ->
-  go_loop all (render_line (LClose ind t) :: rest) num true = go_loop all rest (S num) false.
+  go_loop ((render_line (LClose ind t) ++ [10]) :: rest) num off true = go_loop rest (S num) (off + line_len (LClose ind t)) false.
 Proof.
+  intros Hl. destruct (piece_line true _ Hl) as [Hch Hlen]. revert Hl.
   cbn [line_ok andb]. intros H. apply andb_true_iff in H as [Hind Ht].
   assert (text_ok (render_line (LClose ind t)) = true) as Hok.
   { cbn [render_line]. rewrite !text_ok_app, (sp_text _ Hind), (tail_text t (or_intror Ht)). reflexivity. }
@@ -492,7 +530,7 @@ Proof.
       + right. rewrite (lstrip_sp_app _ _ Hsp), (lstrip_vis 47 _ eq_refl). reflexivity.
     - rewrite app_nil_r. change (41 :: t_sp t) with ([41] ++ t_sp t). rewrite (rstrip_app_sp _ _ Hsp).
       change [41] with ([] ++ [41]). rewrite (rstrip_snoc_vis [] 41 eq_refl). exists []. repeat split. now left. }
-  rewrite go_loop_cons. cbv zeta. rewrite Htrim. cbn [beq starts_with orb andb].
+  rewrite go_loop_cons. cbv zeta. rewrite Hch, Hlen, Htrim. cbn [beq starts_with orb andb].
   assert (block_close (41 :: r0) = true) as ->; [|reflexivity].
   unfold block_close. rewrite (trim_start_ascii r0 Hr0). destruct Hcl as [->| ->]; [reflexivity|apply orb_true_r].
 Qed.
@@ -502,12 +540,13 @@ Proof. intros H. destruct (starts_with p a) eqn:E; [|reflexivity]. now rewrite (
 Lemma first_vis_lstrip s : first_vis s = lstrip s.
 Proof. unfold lstrip. induction s as [|c t IH]; [reflexivity|]. cbn. destruct (is_sp c); [exact IH|reflexivity]. Qed.
 
-Lemma step_other all rest num in_block text :
+Lemma step_other rest num off in_block text :
   line_ok in_block (LOther text) = true ->
-  go_loop all (render_line (LOther text) :: rest) num in_block = go_loop all rest (S num) in_block.
+  go_loop ((render_line (LOther text) ++ [10]) :: rest) num off in_block = go_loop rest (S num) (off + line_len (LOther text)) in_block.
 Proof.
-  cbn [line_ok render_line]. intros H. apply andb_true_iff in H as [Hok H]. rewrite first_vis_lstrip in H.
-  rewrite go_loop_cons. cbv zeta. rewrite (trim_ascii _ Hok).
+  intros Hl. destruct (piece_line in_block _ Hl) as [Hch Hlen]. revert Hl.
+  cbn [line_ok render_line] in *. intros H. apply andb_true_iff in H as [Hok H]. rewrite first_vis_lstrip in H.
+  rewrite go_loop_cons. cbv zeta. rewrite Hch, Hlen. rewrite (trim_ascii _ Hok).
   destruct (lstrip_shape text) as [a [L [Htx [Ha [HL Hs]]]]]. rewrite HL in *.
   destruct Hs as [->|[x [t' [-> Hx]]]]; [reflexivity|].
   assert (is_vis x = true) as Hvx.
@@ -515,8 +554,7 @@ Proof.
   change (x :: t') with ([] ++ x :: t'). destruct (rstrip_keeps [] x t' Hvx) as [r0 [Hr [w [Hw Hsw]]]]. rewrite Hr. cbn [app].
   destruct (beq (x :: r0) [] || starts_with [47; 47] (x :: r0)) eqn:Eskip; [reflexivity|].
   destruct in_block.
-  - (* inside a block only blank lines and comments: the line was skipped *)
-    exfalso. apply orb_true_iff in H as [H|H]; [discriminate|].
+  - exfalso. apply orb_true_iff in H as [H|H]; [discriminate|].
     apply orb_false_iff in Eskip as [_ Es]. rewrite Hw in H. change (x :: r0 ++ w) with ((x :: r0) ++ w) in H.
     destruct r0 as [|y' u'].
     + cbn [app starts_with] in H. destruct (47 =? x); [|discriminate]. destruct w as [|w0 w']; [discriminate|].
@@ -530,51 +568,130 @@ Proof.
 Qed.
 
 (* ---------- the file ---------- *)
-Lemma line_text in_block l : line_ok in_block l = true -> text_ok (render_line l) = true.
+Lemma loop_file f : forall num off in_block, file_ok in_block f = true ->
+  go_loop (map (fun l => render_line l ++ [10]) f) num off in_block = located f num off.
 Proof.
-  destruct l as [ind sep1 m sep2 v t|ind sep tsp|ind m sep v t|ind t|text]; cbn [line_ok render_line]; intros H;
-    repeat (apply andb_true_iff in H as [H ?]);
-    repeat match goal with
-           | Hx : nonempty_sp ?s = true |- _ => let Hy := fresh in destruct (nonempty_sp_inv s Hx) as [_ [_ [_ [_ Hy]]]]; clear Hx
-           | Hx : is_tok ?s = true |- _ => let Hy := fresh in destruct (tok_inv s Hx) as [_ [_ [_ [_ Hy]]]]; clear Hx
-           | Hx : version_ok ?s = true |- _ => let Hy := fresh in destruct (version_inv s Hx) as [_ [_ [_ Hy]]]; clear Hx
-           end;
-    rewrite ?text_ok_app;
-    repeat match goal with
-           | Hx : sp_run ?s = true |- _ => rewrite (sp_text s Hx); clear Hx
-           | Hx : vis_run ?s = true |- _ => rewrite (vis_text s Hx); clear Hx
-           | Hx : tail_ok ?t = true |- _ => rewrite (tail_text t (or_introl Hx)); clear Hx
-           | Hx : close_tail_ok ?t = true |- _ => rewrite (tail_text t (or_intror Hx)); clear Hx
-           end; try reflexivity; try assumption.
-Qed.
-
-Definition decl_line (l : gline) : list (bytes * bytes) :=
-  match l with LRequire _ _ m _ v _ => [(m, v)] | LSpec _ m _ v _ => [(m, v)] | _ => [] end.
-
-Lemma loop_file all f : forall num in_block, file_ok in_block f = true ->
-  map nv2 (go_loop all (map render_line f) num in_block) = declared_go_mod f.
-Proof.
-  induction f as [|l t IH]; intros num in_block H; [reflexivity|].
-  cbn [file_ok] in H. apply andb_true_iff in H as [Hl Ht]. cbn [map declared_go_mod flat_map].
-  change (flat_map (fun l0 => match l0 with LRequire _ _ m _ v _ => [(m, v)] | LSpec _ m _ v _ => [(m, v)] | _ => [] end) t) with (declared_go_mod t).
+  induction f as [|l t IH]; intros num off in_block H; [reflexivity|].
+  cbn [file_ok] in H. apply andb_true_iff in H as [Hl Ht]. cbn [map located].
   destruct l as [ind sep1 m sep2 v tl|ind sep tsp|ind m sep v tl|ind tl|text].
-  - destruct in_block; [cbn in Hl; discriminate|]. rewrite (step_require _ _ _ _ _ _ _ _ _ Hl). cbn [app next_block] in *. now rewrite IH.
-  - destruct in_block; [cbn in Hl; discriminate|]. rewrite (step_open _ _ _ _ _ _ Hl). cbn [app next_block] in *. now apply IH.
-  - destruct in_block; [|cbn in Hl; discriminate]. rewrite (step_spec _ _ _ _ _ _ _ _ Hl). cbn [app next_block] in *. now rewrite IH.
-  - destruct in_block; [|cbn in Hl; discriminate]. rewrite (step_close _ _ _ _ _ Hl). cbn [app next_block] in *. now apply IH.
-  - rewrite (step_other _ _ _ _ _ Hl). cbn [app next_block] in *. now apply IH.
+  - destruct in_block; [cbn in Hl; discriminate|]. rewrite (step_require _ _ _ _ _ _ _ _ _ Hl). cbn [next_block] in Ht. now rewrite IH.
+  - destruct in_block; [cbn in Hl; discriminate|]. rewrite (step_open _ _ _ _ _ _ Hl). cbn [next_block located_line app] in *. now apply IH.
+  - destruct in_block; [|cbn in Hl; discriminate]. rewrite (step_spec _ _ _ _ _ _ _ _ Hl). cbn [next_block] in Ht. now rewrite IH.
+  - destruct in_block; [|cbn in Hl; discriminate]. rewrite (step_close _ _ _ _ _ Hl). cbn [next_block located_line app] in *. now apply IH.
+  - rewrite (step_other _ _ _ _ _ Hl). cbn [next_block located_line app] in *. now apply IH.
 Qed.
 
-Lemma file_lines_ok in_block f : file_ok in_block f = true -> forall l, In l (map render_line f) -> text_ok l = true.
+Lemma pieces_render f in_block : file_ok in_block f = true ->
+  split_inclusive_aux (render f) [] = map (fun l => render_line l ++ [10]) f.
 Proof.
-  revert in_block. induction f as [|x t IH]; intros b H l Hin; [destruct Hin|].
-  cbn [file_ok] in H. apply andb_true_iff in H as [Hx Ht]. destruct Hin as [<-|Hin]; [exact (line_text b x Hx)|exact (IH _ Ht l Hin)].
+  revert in_block. unfold render. induction f as [|l t IH]; intros b H; [reflexivity|].
+  cbn [file_ok] in H. apply andb_true_iff in H as [Hl Ht]. cbn [flat_map map]. rewrite <- app_assoc. cbn [app].
+  rewrite split_inclusive_line by (intros c Hc; exact (proj1 (text_ok_no_nl _ (line_text b l Hl) c Hc))).
+  cbn [rev app]. f_equal. exact (IH _ Ht).
 Qed.
 
+(* the whole result, locations included *)
+Theorem go_mod_located f : file_ok false f = true -> parse_go_mod (render f) = located f 0 0.
+Proof. intros H. unfold parse_go_mod. rewrite (pieces_render f false H). now apply loop_file. Qed.
+
+Lemma located_decl f : forall num off, map nv2 (located f num off) = declared_go_mod f.
+Proof.
+  induction f as [|l t IH]; intros num off; [reflexivity|]. cbn [located declared_go_mod flat_map]. rewrite map_app, IH.
+  destruct l; reflexivity.
+Qed.
 Theorem go_mod_exact f : file_ok false f = true -> map nv2 (parse_go_mod (render f)) = declared_go_mod f.
+Proof. intros H. rewrite (go_mod_located f H). apply located_decl. Qed.
+
+(* ---------- C05 for go.mod: every reported location is the version text, line and column included ---------- *)
+Lemma pos_aux_app a : forall s k row col,
+  pos_of_aux (a ++ s) (length a + k) row col = let '(r, c) := pos_of_aux a (length a) row col in pos_of_aux s k r c.
 Proof.
-  intros H. unfold parse_go_mod, render.
-  assert (flat_map (fun l => render_line l ++ [10]) f = flat_map (fun l => l ++ [10]) (map render_line f)) as ->.
-  { clear. induction f as [|x t IH]; [reflexivity|]. cbn [flat_map map]. now rewrite IH. }
-  rewrite (lines_render _ (file_lines_ok false f H)). now apply loop_file.
+  induction a as [|x t IH]; intros s k row col; [reflexivity|].
+  cbn [app length Nat.add pos_of_aux]. destruct (x =? 10); apply IH.
+Qed.
+Lemma pos_aux_line l : (forall c, In c l -> c <> 10) -> forall rest k row col, (k <= length l)%nat ->
+  pos_of_aux (l ++ rest) k row col = (row, col + N.of_nat k).
+Proof.
+  induction l as [|x t IH]; intros H rest k row col Hk.
+  - assert (k = O) as -> by (cbn in Hk; lia). cbn. rewrite N.add_0_r. now destruct rest.
+  - destruct k as [|k']; [cbn; now rewrite N.add_0_r|]. cbn [app pos_of_aux].
+    assert (x <> 10) as Hx by (apply H; now left). apply N.eqb_neq in Hx. rewrite Hx.
+    rewrite IH; [f_equal; rewrite Nat2N.inj_succ; lia|intros c Hc; apply H; now right|cbn in Hk; lia].
+Qed.
+Lemma pos_aux_whole_line l : (forall c, In c l -> c <> 10) -> forall row col,
+  pos_of_aux (l ++ [10]) (length (l ++ [10])) row col = (row + 1, 0).
+Proof.
+  induction l as [|x t IH]; intros H row col; [reflexivity|].
+  cbn [app length pos_of_aux]. assert (x <> 10) as Hx by (apply H; now left). apply N.eqb_neq in Hx. rewrite Hx.
+  apply IH. intros c Hc. apply H. now right.
+Qed.
+
+Definition at_line_start (pre : bytes) (num : nat) : Prop := pos_of_aux pre (length pre) 0 0 = (N.of_nat num, 0).
+
+Lemma firstn_skipn_mid (a v b' : bytes) : firstn_N (blen v) (skipn_N (blen a) (a ++ v ++ b')) = v.
+Proof.
+  unfold firstn_N, skipn_N, blen. rewrite !Nat2N.id, skipn_app, skipn_all, Nat.sub_diag. cbn [app skipn].
+  now rewrite firstn_app, Nat.sub_diag, firstn_all, app_nil_r.
+Qed.
+
+(* one located requirement inside the text  pre ++ line ++ "\n" ++ post  *)
+Lemma located_line_sound pre l post num in_block p :
+  line_ok in_block l = true -> at_line_start pre num -> In p (located_line l num (blen pre)) ->
+  let content := pre ++ (render_line l ++ [10]) ++ post in
+  slice content (p_start p) (p_end p) = Some (p_version p)
+  /\ pos_of content (p_start p) = (p_line p, p_col p) /\ p_end p = p_start p + blen (p_version p) /\ p_end p <= blen content.
+Proof.
+  intros Hl Hpre Hin. cbv zeta.
+  pose proof (line_text in_block l Hl) as Htxt.
+  assert (forall c, In c (render_line l) -> c <> 10) as Hnl by (intros c Hc; exact (proj1 (text_ok_no_nl _ Htxt c Hc))).
+  (* the line is  A ++ v ++ B  with the version at column blen A *)
+  assert (exists A v B, render_line l = A ++ v ++ B /\ p = mkPkg (p_name p) v None (blen pre + blen A) (blen pre + blen A + blen v) (N.of_nat num) (blen A) None) as [A [v [B [Hline Hp]]]].
+  { destruct l as [ind sep1 m sep2 v tl|ind sep tsp|ind m sep v tl|ind tl|text]; cbn [located_line] in Hin; [|destruct Hin| |destruct Hin|destruct Hin].
+    - destruct Hin as [<-|[]]. exists (ind ++ kw ++ sep1 ++ m ++ sep2), v, (render_tail tl). split; [cbn [render_line]; rewrite <- !app_assoc; reflexivity|].
+      cbn [p_name]. rewrite !blen_app. change (blen kw) with 7. f_equal; lia.
+    - destruct Hin as [<-|[]]. exists (ind ++ m ++ sep), v, (render_tail tl). split; [cbn [render_line]; rewrite <- !app_assoc; reflexivity|].
+      cbn [p_name]. rewrite !blen_app. f_equal; lia. }
+  rewrite Hp. cbn [p_start p_end p_version p_line p_col].
+  set (content := pre ++ (render_line l ++ [10]) ++ post).
+  assert (content = (pre ++ A) ++ v ++ (B ++ [10] ++ post)) as Hc by (unfold content; rewrite Hline, <- !app_assoc; reflexivity).
+  assert (blen content = blen pre + blen A + blen v + blen (B ++ [10] ++ post)) as Hlen by (rewrite Hc, !blen_app; lia).
+  repeat split.
+  - unfold slice. assert ((blen pre + blen A <=? blen pre + blen A + blen v) && (blen pre + blen A + blen v <=? blen content) = true) as ->
+      by (apply andb_true_iff; split; apply N.leb_le; lia).
+    f_equal. replace (blen pre + blen A + blen v - (blen pre + blen A)) with (blen v) by lia.
+    rewrite Hc. replace (blen pre + blen A) with (blen (pre ++ A)) by (rewrite blen_app; reflexivity). apply firstn_skipn_mid.
+  - unfold pos_of. unfold content. replace (N.to_nat (blen pre + blen A)) with (length pre + length A)%nat by (unfold blen; lia).
+    rewrite pos_aux_app. unfold at_line_start in Hpre. rewrite Hpre.
+    rewrite Hline, <- !app_assoc. rewrite (pos_aux_line A); [f_equal; unfold blen; lia| |lia].
+    intros c Hc'. apply Hnl. rewrite Hline. apply in_or_app. now left.
+  - lia.
+Qed.
+
+Lemma at_line_start_next pre l num in_block : line_ok in_block l = true -> at_line_start pre num -> at_line_start (pre ++ render_line l ++ [10]) (S num).
+Proof.
+  intros Hl Hpre. unfold at_line_start in *. rewrite app_length. rewrite pos_aux_app, Hpre.
+  pose proof (line_text in_block l Hl) as Htxt.
+  rewrite pos_aux_whole_line; [f_equal; lia|]. intros c Hc. exact (proj1 (text_ok_no_nl _ Htxt c Hc)).
+Qed.
+
+Theorem go_mod_locations f : file_ok false f = true ->
+  forall p, In p (parse_go_mod (render f)) ->
+  slice (render f) (p_start p) (p_end p) = Some (p_version p)
+  /\ pos_of (render f) (p_start p) = (p_line p, p_col p) /\ p_end p = p_start p + blen (p_version p) /\ p_end p <= blen (render f).
+Proof.
+  intros H p Hin. rewrite (go_mod_located f H) in Hin.
+  (* generalise: a prefix of complete lines before the remaining file *)
+  assert (forall rest pre num b, file_ok b rest = true -> at_line_start pre num -> In p (located rest num (blen pre)) ->
+            let content := pre ++ render rest in
+            slice content (p_start p) (p_end p) = Some (p_version p)
+            /\ pos_of content (p_start p) = (p_line p, p_col p) /\ p_end p = p_start p + blen (p_version p) /\ p_end p <= blen content) as G.
+  { induction rest as [|l t IH]; intros pre num b Hok Hpre Hp; [destruct Hp|].
+    cbn [file_ok] in Hok. apply andb_true_iff in Hok as [Hl Ht]. cbn [located] in Hp. apply in_app_or in Hp as [Hp|Hp].
+    - cbv zeta. unfold render. cbn [flat_map]. fold (render t).
+      exact (located_line_sound pre l (render t) num b p Hl Hpre Hp).
+    - cbv zeta. unfold render. cbn [flat_map]. fold (render t). rewrite app_assoc.
+      apply (IH (pre ++ render_line l ++ [10]) (S num) (next_block b l) Ht (at_line_start_next pre l num b Hl Hpre)).
+      replace (blen (pre ++ render_line l ++ [10])) with (blen pre + line_len l); [exact Hp|].
+      unfold line_len. rewrite !blen_app. change (blen [10]) with 1. lia. }
+  exact (G f [] O false H eq_refl Hin).
 Qed.
